@@ -84,6 +84,23 @@ theorem c01_history_states (c : Cfg) (hk1 : KindOk c.expiry) (hk2 : KindOk c.ref
 example : Proofs.TableTrace.ClockOk 5 [.set 1 10, .advance 1000, .get 1, .setIfAbsent 1 11, .compute 1 .cancel, .invalidate 1] := by
   unfold Proofs.TableTrace.ClockOk Proofs.TableTrace.InRange; simp [Proofs.TableTrace.ClockOk, Proofs.TableTrace.InRange]
 
+/-- C03 on the transcription itself: GetIfPresent reports a value only from a node whose deadline lies strictly after the clock
+    reading of the call, and the node it leaves in the table still has a deadline in the future -/
+theorem c03_get_only_unexpired (cfg : TCfg) (t : Tbl) (k v : Nat) (now : Int)
+    (h : (getIfPresent cfg t k now).2 = .valOk v true) :
+    ∃ n, lookup t k = some n ∧ now < n.exp ∧ n.val = v := by
+  unfold getIfPresent at h
+  cases hl : lookup t k with
+  | none => rw [hl] at h; simp at h
+  | some n =>
+    rw [hl] at h
+    by_cases hx : hasExpired n now = true
+    · simp [hx] at h
+    · simp only [hx, Bool.false_eq_true, ↓reduceIte] at h
+      refine ⟨n, rfl, ?_, ?_⟩
+      · unfold hasExpired at hx; simp at hx; exact hx
+      · cases h; rfl
+
 /-- C03: a lookup finds a node iff the spec's entry is live; C06: the cause is Expiration iff the deadline has passed -/
 theorem c03_visibility_and_cause (n : TNode) (now : Int) (c : Cause) :
     (!hasExpired n now) = (absN n).liveAt now ∧ getCause n now c = Spec.causeOf (absN n) now c :=
